@@ -4,7 +4,7 @@ import random
 
 from . import cases as C
 from . import gen
-from .plans import SessionPlan, register, sweep_cases, crash_cases
+from .plans import reentrant_end_cases, SessionPlan, register, sweep_cases, crash_cases
 from .world import Cfg, World
 from .mon import conn, pub, sub, timing, hostile
 
@@ -83,6 +83,15 @@ class P04(SessionPlan):
                     if rc:
                         st += [("pub", 0, 1), ("lose", 0, "done")]    # a broker closes after refusing
                     yield C.SessionCase("handshake-matrix", cfg, steps=st)
+        # the CONNACK deadline over the whole keepalive range: silence up to just before it, then either a CONNACK or the timeout
+        for ka in (0, 1, 2, 9, 10, 11, 255, 256, 1023, 1024, 1025, 1200, 3600, 32768, 65535):
+            for prof, model in (("pubsub", "sync"), ("pub", "tcp"), ("sub", "sync")):
+                for lvl in (3, 4):
+                    wait = (ka or 10) - 0.5
+                    head = [("build", 0), ("connect", 0, True, ka, lvl), ("adv", wait)]
+                    yield C.SessionCase("connack-deadline", Cfg(profile=prof, model=model), steps=head + [("adv", 1)])
+                    yield C.SessionCase("connack-deadline", Cfg(profile=prof, model=model), steps=head + [("connack", 0, 0, False), ("adv", 1)])
+                    yield C.SessionCase("connack-deadline", Cfg(profile=prof, model=model), steps=head + [("connack", 0, 2, False), ("adv", 1)])
         alpha = [("connack", 0, 0, False), ("connack", 0, 0, True), ("connack", 0, 5, False), ("connack", 0, 200, True),
                  ("adv", 11), ("tick",), ("lose", 0, "done"), ("lose", 0, "lost"), ("pub", 0, 1), ("pingresp", 0),
                  ("connect", 0, True, 0, 4), ("connect", 0, False, 4, 3),     # again, e.g. on the protocol a refusal left idle
@@ -146,6 +155,13 @@ class P06(SessionPlan):
             yield x
         big = [("inpub", 0, q, False, False, "new", size) for q in (0, 1, 2) for size in (0, 120, 16400, 65600)]
         yield C.SessionCase("payload-sizes", Cfg(profile="sub"), steps=connected() + big + [("inrel", 0, "known")] * 4)
+        # many exchanges open at once (nothing in the statement bounds their number), released in order,
+        # in one run or across a persistent reconnect
+        for n in (17, 24, 70) if tier == "quick" else (17, 18, 24, 33, 70, 300):
+            for prof in ("sub", "pubsub"):
+                yield C.SessionCase("many-open", Cfg(profile=prof), steps=connected(clean=False) + [("inpub", 0, 2)] * n + [("inrel", 0, "known")] * n)
+                yield C.SessionCase("many-open", Cfg(profile=prof), steps=connected(clean=False) + [("inpub", 0, 2)] * (n // 2) + reconnect(0, False)
+                                    + [("inpub", 0, 2)] * (n - n // 2) + [("inrel", 0, "known")] * n)
 
 
 # ------------------------------------------------------------------------------ C07
@@ -527,6 +543,9 @@ def hostile_blobs(tier, seed):
         for i in range(len(v)):
             for rep in (0x00, 0x01, 0x7F, 0x80, 0xFF, v[i] ^ 0x01, v[i] ^ 0x80):
                 yield v[:i] + bytes((rep,)) + v[i + 1:]
+        for flags in range(16):         # every flag nibble, e.g. a PUBLISH with both QoS bits set
+            if (v[0] & 0xF0) | flags != v[0]:
+                yield bytes(((v[0] & 0xF0) | flags,)) + v[1:]
         for i in range(1, len(v)):
             yield v[:i]
         for ext in (b"\x00", b"\xff\xff", b"\x00\x01\x02"):
@@ -538,6 +557,29 @@ def hostile_blobs(tier, seed):
     for _ in range(2000 if tier == "quick" else 100000):
         n = rng.choice([1, 2, 3, 5, 8, 13, 40])
         yield bytes(rng.randrange(256) for _ in range(n))
+
+
+def _publish_ident(blob):
+    """The two identifier bytes of a PUBLISH-shaped blob with QoS bits set that is exactly one
+    framed packet (so that what follows it on the stream starts a new packet)."""
+    if len(blob) < 7 or blob[0] >> 4 != 3 or not (blob[0] & 0x06):
+        return None
+    rem, mult, i = 0, 1, 1
+    while True:
+        if i >= len(blob) or i > 4:
+            return None
+        rem += (blob[i] & 0x7F) * mult
+        mult *= 128
+        i += 1
+        if not blob[i - 1] & 0x80:
+            break
+    if i + rem != len(blob) or i + 2 > len(blob):
+        return None
+    tl = (blob[i] << 8) | blob[i + 1]
+    j = i + 2 + tl
+    if j + 2 > len(blob) or blob[j:j + 2] == b"\x00\x00":
+        return None
+    return bytes(blob[j:j + 2])
 
 
 @register
@@ -588,6 +630,13 @@ class P16(SessionPlan):
             for ci in which:
                 cfg, pre = ctxs[ci]
                 yield C.SessionCase("hostile/ctx%d" % ci, cfg, steps=list(pre) + [("raw", 0, blob)])
+            # delayed effects: a PUBLISH-shaped blob may leave something behind that a later, well-formed
+            # PUBREL for the same identifier turns into a delivery
+            ident = _publish_ident(blob)
+            if ident is not None:
+                for ci in (0, 5) if not targeted else (0,):
+                    cfg, pre = ctxs[ci]
+                    yield C.SessionCase("hostile+pubrel", cfg, steps=list(pre) + [("raw", 0, blob), ("raw", 0, b"\x62\x02" + ident)])
 
 
 # ------------------------------------------------------------------------------ C17
@@ -633,6 +682,9 @@ class P17(SessionPlan):
             for place in (65530, 65533, 65535):
                 for tail in ([("pub", 0, 1)] * 6, [("sub", 0, "str", 1, 0)] + [("pub", 0, 2)] * 4):
                     yield C.SessionCase("wrap-into-block", Cfg(profile="pubsub"), steps=blk + [("placeid", place)] + tail)
+        # the session ends (purge) with the counter standing just before the identifiers being failed, while errbacks publish again
+        for x in reentrant_end_cases(places=(0, 1, 2, 3, 4, 65535)):
+            yield x
         if tier == "thorough":
             st = connected(clean=False, win=2) + [("pub", 0, 2), ("ack", 0, "PUBREC", "old"), ("sub", 0, "str", 1, 1), ("setwin", 0, 4)]
             st += [("pub", 0, 1), ("ack", 0, "PUBACK", "new")] * 70000
